@@ -20,6 +20,32 @@ func (a *acc) run(vals []int, wg *sync.WaitGroup) {
 
 func square(x int, out chan<- int) { out <- x * x }
 
+// job has a value receiver that the method uses as scratch space: every call of
+// a method value must work on its own copy.
+type job struct{ id, acc int }
+
+func (j job) work(n int) int {
+	for i := 0; i < n; i++ {
+		j.acc += j.id + i
+	}
+	return j.acc
+}
+
+// list has a pointer-receiver method that reassigns its receiver variable.
+type list struct {
+	v    int
+	next *list
+}
+
+func (l *list) sum() int {
+	s := 0
+	for l != nil {
+		s += l.v
+		l = l.next
+	}
+	return s
+}
+
 // Run starts goroutines on methods, on function values and on named functions.
 func Run() {
 	n := 2 + host.Param(0)
@@ -53,4 +79,25 @@ func Run() {
 		s += <-out
 	}
 	host.Emit(1, s)
+	// one stored method value called by every goroutine, twice each
+	shared := job{id: 7}.work
+	ls := &list{1, &list{2, &list{3, nil}}}
+	lsum := ls.sum
+	res := make([]int, n)
+	for i := 0; i < n; i++ {
+		own := job{id: i}.work
+		wg.Add(1)
+		go func() {
+			defer wg.Done()
+			a := shared(m + 2)
+			b := shared(m + 2)
+			c := own(3)
+			d := own(3)
+			res[i] = a*1000000 + (b-a)*100000 + c*100 + (d - c) + lsum()*10000 + lsum()
+		}()
+	}
+	wg.Wait()
+	for _, v := range res {
+		host.Emit(2, v)
+	}
 }
